@@ -548,6 +548,8 @@ def batch_norm_forward(x, gamma, beta, running_mean, running_var, training, mome
     normed_dims = tuple(i for i in range(x.ndim) if i != 1)
     keepdims_shape = tuple(1 if n != 1 else d for n, d in enumerate(x.shape))
     n = x.size / x.shape[1]
+    if training and n <= 1:
+        raise ValueError(f"Expected more than 1 value per channel when training, got input size {x.shape}")
     
     # normalize x
     mean = running_mean if running_mean is not None and not training else x.mean(axis=normed_dims)
